@@ -382,6 +382,32 @@ def extract():
                     and isinstance(sample_calls[0].args[0], ast.Name))
     sample_call = ast.unparse(sample_calls[0])
 
+    # the form of the per-method lookup at every level: `<row>.get(method + param, None)` inside loops over
+    # the parameters and the methods (an exact match of the column name, never a split of the label)
+    def exact_lookup(func, row_names):
+        found = set()
+        for node in ast.walk(func):
+            if (isinstance(node, ast.Call) and isinstance(node.func, ast.Attribute) and node.func.attr == "get"
+                    and isinstance(node.func.value, ast.Name) and node.func.value.id in row_names and node.args
+                    and isinstance(node.args[0], ast.BinOp) and isinstance(node.args[0].op, ast.Add)
+                    and isinstance(node.args[0].left, ast.Name) and node.args[0].left.id == "method"
+                    and isinstance(node.args[0].right, ast.Name) and node.args[0].right.id == "param"):
+                found.add(node.func.value.id)
+        # no other way of reading the row by a computed label
+        other = [n for n in ast.walk(func) if isinstance(n, ast.Call) and isinstance(n.func, ast.Attribute)
+                 and n.func.attr in ("items", "partition", "split", "rsplit", "startswith", "endswith", "index")
+                 and isinstance(n.func.value, (ast.Name, ast.Call)) and ast.unparse(n.func.value).split("(")[-1].rstrip(")") in row_names | {"label", "str(label)"}]
+        return found == set(row_names) and not other
+    _, eq_tree = _parse("virtual_world/equipment_groups.py")
+    _, src_tree = _parse("virtual_world/sources.py")
+    meth_lookup = {
+        "site_type+site": exact_lookup(upp, {"site_type_info", "site_row_df_info"}),
+        "equipment": exact_lookup(_find_method(eq_tree, "Equipment_Group", "_update_prop_params",
+                                               "virtual_world/equipment_groups.py"), {"info"}),
+        "source": exact_lookup(_find_method(src_tree, "Source", "_update_prop_params",
+                                            "virtual_world/sources.py"), {"info"}),
+    }
+
     placeholders = repo.gc["Placeholder_Constants"]
     tables = {
         "globalPlain": list(VW["PROPAGATING_PARAMS"].keys()),
@@ -424,6 +450,7 @@ def extract():
         "sourceFile": {n: v for n, v in R.items() if isinstance(v, str)},
         "sampleCall": sample_call,
         "samplePlain": sample_plain,
+        "methLookupExact": meth_lookup,
         "methSpecific": repo.pdc["Common_Params"]["METH_SPECIFIC"],
         "values": repo.pdc["Common_Params"]["VAL"],
     }
